@@ -37,11 +37,44 @@ def main(argv=None):
                                 evaluations=1, distinct_nontrivial=0),
                   assumptions=[])
         code = 3
+        if isinstance(x, Unsupported):
+            # the tree is outside the verifier's reach: a bounded native corpus of the real code stands in (labelled; it can only
+            # turn "no verdict" into a violation with a concrete failing input, never into a pass)
+            try:
+                fb = native_fallback(prop, a.tier, seed, str(x))
+                if fb is not None:
+                    code, ev2 = fb
+                    ev['coverage'].update(ev2); ev['violations'] = 1 if code == 1 else 0
+            except Exception as y:
+                print("native fallback failed: %s" % y)
     ev['wall_s'] = round(time.time() - t0, 2)
     os.makedirs(os.path.dirname(evidence_path), exist_ok=True)
     with open(evidence_path, 'w') as f: json.dump(ev, f, indent=1, default=str)
     print("pvc %s tier=%s exit=%d wall=%.1fs evidence=%s" % (prop, a.tier, code, ev['wall_s'], os.path.relpath(evidence_path, HERE)))
     return code
+
+
+def native_fallback(prop, tier, seed, reason):
+    from .nativeio import native, HERE as H
+    from . import replay as RP
+    if not os.path.exists(os.path.join(H, 'pvc', 'native', prop.lower() + '.py')): return None
+    n = 60 if tier == 'quick' else 300
+    cases = native(dict(cmd='corpus', prop=prop, seed=seed, n=n))
+    out = native(dict(cmd='check', prop=prop, cases=cases), timeout=3000)
+    cov = dict(bounded_parts=[dict(function='native corpus of %s (fallback)' % prop, bound='%d seeded concrete inputs' % len(cases), reason='pvc could not analyse this tree: ' + reason[:200])],
+               native_corpus_cases=len(cases))
+    for c, fails in zip(cases, out):
+        if fails and not any(str(f).startswith('CHECKER-EXCEPTION') for f in fails):
+            class _S: repo = os.environ.get('PVC_REPO', '/repo')
+            class _C: seed_ = seed
+            r = dict(name='native-corpus-fallback', prop=prop, status='refuted', native_case=c, native_failures=fails, backend=None,
+                     detail="pvc could not analyse this tree (%s); the bounded native corpus found a failing input on the real code" % reason[:200],
+                     meta=dict(function='native corpus', statement='property statements evaluated numerically on the real code'))
+            cxs = type('X', (), dict(seed=seed, tier=tier))()
+            path = RP.write_replays(prop, [r], _S(), cxs)[0]
+            print("VIOLATION property=%s replay=%s obligation=native-corpus-fallback" % (prop, path))
+            return 1, cov
+    return None
 
 
 def load_known():
@@ -161,10 +194,12 @@ def run(prop, tier, seed, a):
                functions_under_contract=cx.functions,
                per_obligation=[dict(name=r['name'], status=r['status'], backend=r.get('backend'), solver_s=r.get('time'),
                                     expect=r.get('expect'), kind=r.get('meta', {}).get('kind', 'post'),
-                                    known_finding=r.get('known_finding'), detail=(r.get('detail') or '')[:300] or None,
+                                    second_opinion=(r.get('second') or {}).get('answer'), known_finding=r.get('known_finding'), detail=(r.get('detail') or '')[:300] or None,
                                     info={k: str(v)[:300] for k, v in r.get('meta', {}).items() if k in ('found', 'outcomes', 'why', 'statement', 'function', 'writes', 'loops')},
                                     sub=[x for x in r.get('sublog', [])][:20]) for r in results],
                back_ends=backends, paths_explored=cx.paths,
+               second_opinions=dict(backend='z3-4.8.12(cli)', asked=sum(1 for r in results if r.get('second')), agreeing=sum(1 for r in results if r.get('second') and r['second'].get('answer') in ('unsat', 'sat')),
+                                    unknown=sum(1 for r in results if r.get('second') and r['second'].get('answer') not in ('unsat', 'sat'))),
                generation_s=round(gen_s, 2), solver_wall_s=round(solve_s, 2),
                solver_cpu_s=round(sum(r.get('time') or 0 for r in results), 2),
                undecided=[r['name'] for r in undecided], refuted=[r['name'] for r in refuted],
